@@ -240,7 +240,25 @@ def translate_cell(acc, rng, cfgname, hooked):
     held = None          # (descriptor object, what it said when it was returned): a result stays what it was after later translations
     for va in vas + [v ^ rng.choice((0x1000, 0x100000, 0x10000)) for v in vas[:3]]:
         ispriv, iswrite = bool(rng.getrandbits(1)), bool(rng.getrandbits(1))
-        if rng.random() < 0.3:
+        if cfgname == 'v7-virt-ns' and rng.random() < 0.25:
+            # the hypervisor edits the guest's stage-2 tables between two translations (a VM switch, a page taken away): one descriptor gets its valid
+            # bit flipped or another output address; a result remembered from an earlier walk - completed or aborted - is not the mapping any more
+            img = bytearray(pre['mem2'])
+            off = 8 * rng.randrange(0, len(img) // 8)
+            for _t in range(40):
+                if int.from_bytes(img[off:off + 8], 'little') != 0:
+                    break
+                off = 8 * rng.randrange(0, len(img) // 8)
+            d_ = int.from_bytes(img[off:off + 8], 'big' if (pre['hsctlr'] >> 25) & 1 else 'little')
+            d_ ^= rng.choice((1, 1, 1 << 12, 1 << 21, 3 << 6, 1 << 10))
+            nb = d_.to_bytes(8, 'big' if (pre['hsctlr'] >> 25) & 1 else 'little')
+            img[off:off + 8] = nb
+            target.poke(cpu, S2DEV[0] + off, nb)
+            pre = dict(pre)
+            pre['mem2'] = bytes(img)
+            ops.append(['p', S2DEV[0] + off, nb.hex()])
+            acc.cls('translate:stage-2-table-edited-between-translations')
+        elif rng.random() < 0.3:
             # the same long-lived instance translates again after ONE control bit or register changed (the other registers keep their values): whatever
             # an implementation derives from the translation controls is keyed by all of them
             k_ = rng.choice(('sctlr', 'sctlr', 'sctlr', 'dacr', 'prrr', 'nmrr', 'ttbcr'))
@@ -645,6 +663,8 @@ def replay(case, bucket=None):
             # what the same instance did before the failing translation: control changes and earlier translations
             if op[0] == 'c':
                 target.apply_state(cpu, {op[1]: op[2]})
+            elif op[0] == 'p':
+                target.poke(cpu, op[1], bytes.fromhex(op[2]))
             else:
                 keep = target.snapshot(cpu, False)
                 try:
